@@ -71,4 +71,5 @@ c1875a2 C14
 0d81d29 C11
 749e897 C19
 6112cb1 C19
+c2be3c9 C07
 LIST
